@@ -232,14 +232,21 @@ func init() {
 				for _, kind := range []int{0, 2, 4, 8, 9} {
 					js = append(js, sym.Job{Harness: "VH_C14_reply_ownership", Params: map[string]int{"kind": kind, "mode": mode, "q": 2}})
 				}
+				if mode < 2 {
+					for op := 0; op < 3; op++ {
+						for at := 0; at < 2; at++ {
+							js = append(js, sym.Job{Harness: "VH_C14_concurrent_op", Params: map[string]int{"mode": mode, "op": op, "at": at}})
+						}
+					}
+				}
 			}
 			return js
 		},
 		Bounds: map[string]string{
-			"quick":    "requests FC3 and FC6 x 3 clients x all 8 fault kinds (prefix case-split) x {no hooks, hook panicking in BeforeWrite / AfterEachRead / BeforeParse}; Connect, Do, Close each once, sequentially; plus two consecutive exchanges (FC1, FC3, FC5, FC17, FC23) on one client: the first caller's response is unchanged by the second exchange",
+			"quick":    "requests FC3 and FC6 x 3 clients x all 8 fault kinds (prefix case-split) x {no hooks, hook panicking in BeforeWrite / AfterEachRead / BeforeParse}; Connect, Do, Close each once, sequentially; plus two consecutive exchanges (FC1, FC3, FC5, FC17, FC23) on one client: the first caller's response is unchanged by the second exchange; plus ONE pinned interleaving: a goroutine calling Close / Connect / Do on the network clients at the moment a Do in progress encodes its request",
 			"thorough": "all 10 request kinds; panicking hooks combined with every fault",
 		},
 		Outside:   []string{"goroutine interleavings are NOT a variable of this check: it decides the sequential lock discipline (lock held at every transport operation, released on every path, never taken twice) from which mutual exclusion of whole exchanges follows by the semantics of sync.RWMutex; data races on fields, fairness and the go test -race clause are outside"},
-		MinCovers: []string{"do-returned", "two-exchanges"},
+		MinCovers: []string{"do-returned", "two-exchanges", "concurrent-op"},
 	})
 }
